@@ -8,6 +8,7 @@ import (
 	"encoding/json"
 	"errors"
 	"hash"
+	"io"
 	"net"
 	"time"
 
@@ -168,5 +169,65 @@ func VerifC24Reconnect() {
 	r.receiveLoop()
 	zz.Assert(len(rec.applied) == 2 && rec.applied[0] == 0 && rec.applied[1] == 1, "an entry the reader had not applied yet was rejected after a reconnect")
 	zz.Assert(r.lastSeq.Load() == s2, "the receiver's last sequence differs from the last applied entry")
+	zz.Reach("end")
+}
+
+// ---- checkpoints: they speak about what was SENT on the connection ----
+
+type c24Wire struct {
+	kind string // "entry" | "checkpoint"
+	seq  uint64
+}
+
+var c24Sent []c24Wire
+
+func c24WriteEntry(w io.Writer, e *ReplicateEntry) error {
+	c24Sent = append(c24Sent, c24Wire{"entry", e.Sequence})
+	return nil
+}
+func c24WriteCheckpoint(w io.Writer, cp *ReplicateCheckpoint) error {
+	c24Sent = append(c24Sent, c24Wire{"checkpoint", cp.LastSequence})
+	return nil
+}
+
+// VerifC24Checkpoint: writers have handed n entries to Replicate (their sequence numbers
+// are assigned, the entries wait in the queue); the real sendToReader then streams the
+// first k of them to one reader, emitting checkpoints at the configured interval. Every
+// checkpoint must name the sequence of the last entry written on that connection before it
+// - which is what the receiver compares it with - not a sequence that is still queued.
+func VerifC24Checkpoint() {
+	zz.ClockFixed(1700000000000000000)
+	n := 3
+	s := &Sender{cfg: &SenderConfig{SharedSecret: "s", LocalNodeID: "w1", ClusterName: "c", CheckpointInterval: 1 + zz.Choice("checkpoint_interval", 2), WriteTimeout: time.Second, BufferSize: 8},
+		logger: zerolog.Nop(), entryChan: make(chan *ReplicateEntry, 8)}
+	s.running.Store(true)
+	for i := 0; i < n; i++ {
+		s.Replicate(&ReplicateEntry{TimestampUS: 1, Payload: []byte{byte(i)}})
+	}
+	zz.Assert(len(s.entryChan) == n, "entries were not queued")
+	var queued []*ReplicateEntry
+	for i := 0; i < n; i++ {
+		queued = append(queued, <-s.entryChan) // what distributionLoop takes, one at a time
+	}
+	reader := &ReaderConnection{id: "r1", conn: c24Conn{}, ctx: context.Background(), cumulativeHash: c24Hash{}}
+	c24Sent = nil
+	k := 1 + zz.Choice("entries_streamed", n)
+	for i := 0; i < k; i++ {
+		zz.Assert(s.sendToReader(reader, queued[i], [32]byte{}) == nil, "send failed")
+	}
+	last := uint64(0)
+	sawCheckpoint := false
+	for _, wv := range c24Sent {
+		if wv.kind == "entry" {
+			zz.Assert(wv.seq > last, "entries left the connection out of order")
+			last = wv.seq
+		} else {
+			zz.Assert(wv.seq == last, "a checkpoint names a sequence other than that of the last entry sent on the connection (the receiver drops the connection on the mismatch)")
+			sawCheckpoint = true
+		}
+	}
+	if sawCheckpoint {
+		zz.Reach("checkpoint")
+	}
 	zz.Reach("end")
 }
